@@ -38,6 +38,15 @@ def jobs(tier):
                              bounds="kind=%s %s%s%s%s" % (k, "blocking loop" if mode else "dispatch", ", owner paused" if pause else "",
                                                         ", ended by stop" if end else "", ", one-shot" if one else ""),
                              unwind=13, task_fns=["my_task"]))
+    for scen in (0, 1):
+        for desc in ((0, 1) if scen == 0 else (0,)):
+            js.append(l2_job("C03.pill.s%d.d%d" % (scen, desc), "l2/c03_pill.c", defines={"SCEN": scen, "DESC": desc},
+                             symbolic=["errno left by callbacks incl. the stop callback (int)", "quit code (uint8)"],
+                             bounds="pill + descriptor event in one batch" if scen == 0 else "message pending for a paused module at quit",
+                             unwind=13))
+    for e in (2,):
+        js.append(l2_job("C03.pill.s0.d0.fixed%d" % e, "l2/c03_pill.c", defines={"SCEN": 0, "DESC": 0, "ERRNO_FIXED": e},
+                         symbolic=["quit code (uint8)"], bounds="errno=%d concrete (regression companion)" % e, unwind=13))
     full = (1 << nf) - 1
     for e in (9, 4, 11):        # EBADF, EINTR, EAGAIN
         js.append(l2_job("C03.errno.NF%d.m%d.fixed%d" % (nf, full, e), "l2/c03_errno.c",
